@@ -10,7 +10,7 @@ from .. import env  # noqa: F401
 from .. import gen, build, mcase, refgeo as rg
 
 ID = "C15"
-CASES = {"quick": 5000, "thorough": 100000}
+CASES = {"quick": 12000, "thorough": 150000}
 MIN_CASES_PER_SHARD = 30
 CASE_TIMEOUT = 40
 SCALE = 30.0
